@@ -3,6 +3,7 @@
 #pragma once
 #include "qmailenv.hpp"
 #include <cmath>
+#include <deque>
 namespace vk {
 
 enum { TAG_LCMD = 1, TAG_LREP = 2, TAG_RCMD = 3, TAG_RREP = 4, TAG_LOG = 5, TAG_CLEANREQ = 6, TAG_CLEANREP = 7 };
@@ -36,7 +37,7 @@ struct RcptState {
   int attempts = 0; bool inflight = false; char final_report = 0;   // 'K', 'D' (incl. expired Z), 0 = none yet
   bool marked = false;       // a 'D' byte was written over its record
   bool attempted_in_pass = false;
-  bool awaiting_mark = false; // reported K/D; the daemon's next mark write for this message/channel must cover this record
+  bool awaiting_mark = false; // (unused) // reported K/D; the daemon's next mark write for this message/channel must cover this record
   std::string reason;
   int k_reports = 0;
   bool attempted_after_final = false;
@@ -64,6 +65,8 @@ struct DaemonScenario : Scenario {
   std::shared_ptr<Pipe> cmd[2], rep[2]; std::shared_ptr<Sink> logsink;
   std::string cmdbuf[2];
   std::vector<Delivery> inflight; int serial = 0;
+  bool mark_check_off = false;   // after an injected failure inside the daemon the report/mark alignment is unknown until it restarts
+  std::deque<std::pair<long, std::string>> markfifo[2];   // K/D reports sent and not yet followed by the daemon's mark write, per channel
   std::map<long, MsgState> ledger;    // by queue number (current holder of the number)
   std::vector<MsgState> finished;     // messages that left the queue
   std::vector<int> injectors;         // live injector pids
@@ -123,7 +126,7 @@ struct DaemonScenario : Scenario {
     k.ofds[lc_w]->tag = TAG_LCMD; k.ofds[lr_r]->tag = TAG_LREP; k.ofds[rc_w]->tag = TAG_RCMD; k.ofds[rr_r]->tag = TAG_RREP; k.ofds[qc_w]->tag = TAG_CLEANREQ; k.ofds[cq_r]->tag = TAG_CLEANREP;
     rep[0]->buf.push_back((char) announce); rep[1]->buf.push_back((char) announce);
     int lg = QmailEnv::sink(w, &logsink); k.ofds[lg]->tag = TAG_LOG;
-    cmdbuf[0].clear(); cmdbuf[1].clear(); inflight.clear();
+    cmdbuf[0].clear(); cmdbuf[1].clear(); inflight.clear(); markfifo[0].clear(); markfifo[1].clear(); mark_check_off = false;
     std::map<int, int> cf; cf[0] = qc_r; cf[1] = cq_w; cf[2] = QmailEnv::nullfd(w);
     cleanpid = w.spawn("/var/qmail/bin/qmail-clean", {"qmail-clean"}, cf, UID_QMAILQ, GID_QMAIL, "/");
     w.run_until_blocked(cleanpid);   // its start-up is independent of everything else: no scheduling choice needed
@@ -273,9 +276,9 @@ struct DaemonScenario : Scenario {
     if (rc) {
       rc->inflight = false;
       bool dying = (d.started > m->birth + lifetime);
-      if (verdict == 'K') { rc->final_report = 'K'; rc->k_reports++; rc->awaiting_mark = true; }
-      else if (verdict == 'D') { rc->final_report = 'D'; rc->reason = text; rc->awaiting_mark = true; }
-      else if (verdict == 'Z') { if (dying) { rc->final_report = 'D'; rc->reason = text; rc->awaiting_mark = true; w.counters["expired_deferrals"]++; } else if (m) m->had_defer[d.chan] = true; }
+      if (verdict == 'K') { rc->final_report = 'K'; rc->k_reports++; markfifo[d.chan].push_back({d.msg, rc->routed}); }
+      else if (verdict == 'D') { rc->final_report = 'D'; rc->reason = text; markfifo[d.chan].push_back({d.msg, rc->routed}); }
+      else if (verdict == 'Z') { if (dying) { rc->final_report = 'D'; rc->reason = text; markfifo[d.chan].push_back({d.msg, rc->routed}); w.counters["expired_deferrals"]++; } else if (m) m->had_defer[d.chan] = true; }
       else if (m) m->had_defer[d.chan] = true;   // garbage is a deferral
     }
     w.counters[std::string("reports_") + (verdict == 'K' || verdict == 'Z' || verdict == 'D' ? std::string(1, verdict) : "garbage")]++;
@@ -286,7 +289,7 @@ struct DaemonScenario : Scenario {
   // ------------------------------------------------------------------ step monitors
   void after_step(World &w, Proc &p, const Step &st) override {
     if (st.op == VK_WRITE && (st.tag == TAG_LCMD || st.tag == TAG_RCMD) && st.ret > 0) drain_commands(w, st.tag == TAG_LCMD ? 0 : 1);
-    if (st.injected && st.err && p.vpid == sendpid) for (auto &kv : ledger) for (auto &r : kv.second.rc) r.awaiting_mark = false;   // a mark that could not be written
+    if (st.injected && st.err && p.vpid == sendpid) { markfifo[0].clear(); markfifo[1].clear(); mark_check_off = true; }   // a mark may not get written: alignment is lost
     if (st.injected && st.err) { faults_seen++; w.counters["faults_injected"]++; history += " FAULT(" + opname(st.op) + " " + st.path + ")"; }
     if (w.aborted) return;
     bool fsop = (st.op == VK_LINK || st.op == VK_UNLINK || st.op == VK_RENAME || st.op == VK_OPEN || st.op == VK_KILL);
@@ -329,14 +332,13 @@ struct DaemonScenario : Scenario {
         }
         i = j + 1;
       }
-      if (M("C04") || M("C03")) {
-        // every recipient whose attempt was reported K or D must find its *own* record marked once the daemon has written the mark
-        for (auto &r : kv.second.rc) if (r.chan == c && r.awaiting_mark) {
-          r.awaiting_mark = false;
-          size_t i2 = 0; bool ok = false;
-          while (i2 < f->data.size()) { size_t j2 = f->data.find('\0', i2); if (j2 == std::string::npos) break; if (f->data.compare(i2 + 1, j2 - i2 - 1, r.routed) == 0 && f->data[i2] == 'D') ok = true; i2 = j2 + 1; }
-          if (!ok) { w.violation("C04:mark-misplaced", "recipient " + r.addr + " of message " + std::to_string(kv.first) + " was reported " + std::string(1, r.final_report) + " and a completion mark was written, but its own record is still not marked (the mark landed elsewhere): it would be attempted again"); return; }
-        }
+      if ((M("C04") || M("C03")) && !markfifo[c].empty() && !mark_check_off) {
+        // reports are processed in arrival order per channel: this mark belongs to the oldest K/D report not yet marked, and it
+        // must cover that recipient's own record
+        auto front = markfifo[c].front(); markfifo[c].pop_front();
+        size_t i2 = 0; bool ok = false;
+        if (front.first == kv.first) while (i2 < f->data.size()) { size_t j2 = f->data.find('\0', i2); if (j2 == std::string::npos) break; if (f->data.compare(i2 + 1, j2 - i2 - 1, front.second) == 0 && f->data[i2] == 'D') ok = true; i2 = j2 + 1; }
+        if (!ok) { w.violation("C04:mark-misplaced", "a completion mark was written into " + std::string(c ? "remote/" : "local/") + std::to_string(kv.first) + " for the report on recipient " + front.second + " of message " + std::to_string(front.first) + ", but that recipient's own record is still not marked (the mark landed elsewhere): it would be attempted again"); return; }
       }
       if (!hit && M("C03")) w.violation("C03:stray-mark", "a D byte was written into " + std::string(c ? "remote/" : "local/") + std::to_string(kv.first) + " at a place that is not the start of an unfinished record");
       return;
@@ -444,7 +446,7 @@ struct DaemonScenario : Scenario {
   void after_machine_crash(World &w) override {
     machine_crashed = true; w.counters["machine_crashes"]++; history += " CRASH";
     sendpid = cleanpid = 0; inflight.clear(); injectors.clear(); cmd[0].reset(); cmd[1].reset(); rep[0].reset(); rep[1].reset();
-    for (auto &kv : ledger) { for (auto &r : kv.second.rc) { r.inflight = false; r.awaiting_mark = false; } kv.second.earliest_next[0] = kv.second.earliest_next[1] = 0; }
+    for (auto &kv : ledger) { for (auto &r : kv.second.rc) { r.inflight = false; } kv.second.earliest_next[0] = kv.second.earliest_next[1] = 0; }
     // which un-fsynced data was dropped is visible as files whose content changed; for the bounce exemption any loss counts
     data_lost = true;
     // re-read the ledger against the post-crash image: marks that were lost are no longer marks
@@ -452,7 +454,7 @@ struct DaemonScenario : Scenario {
     if (M("C02")) check_qstate(w, "after a machine crash");
   }
   void on_proc_exit(World &w, Proc &p) override {
-    if (p.vpid == sendpid) { if ((p.status & 127) == SIGKILL) { daemon_killed = true; history += " KILL-SEND"; for (auto &kv : ledger) { for (auto &r : kv.second.rc) { r.inflight = false; r.awaiting_mark = false; } kv.second.earliest_next[0] = kv.second.earliest_next[1] = 0; } inflight.clear(); w.counters["daemon_kills"]++; } }
+    if (p.vpid == sendpid) { if ((p.status & 127) == SIGKILL) { daemon_killed = true; history += " KILL-SEND"; for (auto &kv : ledger) { for (auto &r : kv.second.rc) { r.inflight = false; } kv.second.earliest_next[0] = kv.second.earliest_next[1] = 0; } inflight.clear(); w.counters["daemon_kills"]++; } }
     for (size_t i = 0; i < injectors.size(); i++) if (injectors[i] == p.vpid) { injectors.erase(injectors.begin() + i); break; }
   }
 
